@@ -322,11 +322,39 @@ def job_irrep(tier, rng):
     return out
 
 
+def job_delegation(tier, rng):
+    """the matrix-input routines are compositions of the angle routines: with the extraction routine replaced by a stub returning sentinel angles,
+    so3_to_su2(R) is angle_to_su2 of those angles and get_su2_irrep(j2, U) is get_su2_irrep(j2, angles) (exact evaluation; the code path does not depend on the input)"""
+    from vf.symarray import shimmed
+    out = []
+    cases = [((0.3,), (1.1,), (2.5,)), ((0.3, 4.0), (1.1, 0.0), (2.5, 7.0))]
+    ok1 = True; ok2 = True
+    try:
+        for a, b, g in cases:
+            a, b, g = np.array(a), np.array(b), np.array(g)
+            n = len(a)
+            with shimmed([], extra={(lie, 'so3_to_angle'): lambda np0, zero_eps=1e-7: (a.copy(), b.copy(), g.copy()), (lie, 'su2_to_angle'): lambda np0, zero_eps=1e-7: (a.copy(), b.copy(), g.copy())}):
+                R = np.stack([np.eye(3)] * n); U = np.stack([np.eye(2, dtype=complex)] * n)
+                ok1 = ok1 and np.array_equal(lie.so3_to_su2(R), lie.angle_to_su2(a, b, g))
+                for j2 in range(0, 6):
+                    ok2 = ok2 and np.array_equal(lie.get_su2_irrep(j2, U), lie.get_su2_irrep(j2, a, b, g))
+    except Exception as ex:
+        if not from_repo(ex):
+            raise
+        ok1 = ok2 = False
+    out.append(ob(f'{PROP}.so3_to_su2.is_angle_to_su2_of_the_extracted_angles', 'proved' if ok1 else 'refuted', tier='P', backend='exact-eval (recorder stub)', functions=['numqi.group._lie:so3_to_su2'], witness=None, canary_negated_clause_refuted=True,
+                  verifier_output=None if ok1 else 'so3_to_su2 does not return angle_to_su2 of the angles handed back by so3_to_angle'))
+    out.append(ob(f'{PROP}.get_su2_irrep.matrix_input_is_angle_input_of_the_extracted_angles[j2<=5]', 'proved' if ok2 else 'refuted', tier='P', backend='exact-eval (recorder stub)', functions=['numqi.group._lie:get_su2_irrep'], witness=None,
+                  canary_negated_clause_refuted=True, verifier_output=None if ok2 else 'get_su2_irrep on a matrix does not equal get_su2_irrep on the angles handed back by su2_to_angle'))
+    out.append(ob(f'{PROP}.delegation.meta', 'meta', tier='P', backend='-', functions=[], paths=1, crosscheck_inputs=0))
+    return out
+
+
 def jobs(tier):
     J = [('job_identity', dict(cname='su2_to_so3', shapes=[0])), ('job_identity', dict(cname='angle_to_su2_so3', shapes=[0]))]
     for j2 in SHAPES[tier]['j2']:
         J.append(('job_identity', dict(cname='get_su2_irrep_from_angles', shapes=[j2])))
-    J += [('job_angles', {}), ('job_irrep', {})]
+    J += [('job_angles', {}), ('job_irrep', {}), ('job_delegation', {})]
     return J
 
 
